@@ -53,52 +53,30 @@ def target_read(lit, backslash):
 
 
 def override_model(fn, dialect_name):
-    """Partial evaluation of LiteralCompiler.render_literal_value for a str value under `dialect.name == dialect_name`:
-    -> callable(value) -> literal text, or None when the method delegates str values to super()."""
-    vparam = fn.args.args[1].arg
+    """LiteralCompiler.render_literal_value interpreted (fail-closed AST interpreter) for a str value under `dialect.name == dialect_name`:
+    -> callable(value) -> literal text; raises _Delegates when str values are handed to super()."""
+    from ..interp import Interp, Obj, Raised, Env
+    mod = fn
+    while getattr(mod, '_parent', None) is not None:
+        mod = mod._parent
+
+    def delegate(*a, **k):
+        raise _Delegates()
 
     def run(v):
-        env = {vparam: v, 'dialect.name': dialect_name, 'self.dialect.name': dialect_name,
-               'isinstance': lambda x, t: True, 'str': str}
-
-        def ev(e):
-            if isinstance(e, ast.Call) and isinstance(e.func, ast.Attribute) and e.func.attr == 'format' and const_str(e.func.value) is not None:
-                return e.func.value.value.format(*[ev(a) for a in e.args])
-            if isinstance(e, ast.Call) and dotted(e.func) == 'str' and len(e.args) == 1:
-                return str(ev(e.args[0]))
-            if isinstance(e, ast.Call) and isinstance(e.func, ast.Attribute) and e.func.attr == 'replace':
-                return ev(e.func.value).replace(ev(e.args[0]), ev(e.args[1]))
-            if isinstance(e, ast.JoinedStr):
-                return ''.join(p.value if isinstance(p, ast.Constant) else str(ev(p.value)) for p in e.values)
-            if isinstance(e, ast.Call) and (norm(e.func).startswith('super(') or 'render_literal_value' in norm(e.func)):
-                raise _Delegates()
-            return peval.ev(e, env)
-
-        def block(stmts):
-            for st in stmts:
-                if isinstance(st, ast.Expr) and isinstance(st.value, ast.Constant):
-                    continue
-                if isinstance(st, ast.If):
-                    t = st.test
-                    if isinstance(t, ast.Call) and dotted(t.func) == 'isinstance' and norm(t.args[0]) == vparam:
-                        ts = t.args[1].elts if isinstance(t.args[1], ast.Tuple) else [t.args[1]]
-                        cond = any((dotted(x) or '') == 'str' for x in ts)
-                    else:
-                        cond = ev(t)
-                    r = block(st.body if cond else st.orelse)
-                    if r is not None:
-                        return r
-                elif isinstance(st, ast.Assign) and isinstance(st.targets[0], ast.Name):
-                    env[st.targets[0].id] = ev(st.value)
-                elif isinstance(st, ast.Return):
-                    return (ev(st.value),)
-                else:
-                    raise AnalysisError(f'render_literal_value: unmodelled statement `{norm(st)}`')
-            return None
-        r = block(fn.body)
-        if r is None:
-            raise AnalysisError('render_literal_value can fall off its end')
-        return r[0]
+        stubs = {'super': lambda it, *a: Obj('Super', render_literal_value=delegate)}
+        it = Interp({}, stubs)
+        it.module = mod if isinstance(mod, ast.Module) else None
+        env = Env()
+        d = Obj('Dialect', name=dialect_name)
+        env.set('dialect', d)
+        try:
+            out = it.call_function(fn, [Obj('LiteralCompiler', dialect=d), v, None], {}, env)
+        except Raised as r:
+            raise AnalysisError(f'render_literal_value raises {r.exc_name} for the value {v!r}')
+        if not isinstance(out, str):
+            raise AnalysisError(f'render_literal_value returns {out!r} for the value {v!r}')
+        return out
     return run
 
 
